@@ -368,8 +368,17 @@ def coerce(e):
     if isinstance(e, np.ndarray) and e.shape == ():
         return coerce(e.item())
     if isinstance(e, sympy.Basic):
-        return _sympy(e)
+        return _sympy(_realify(e))
     return NotImplemented
+
+
+def _realify(e):
+    """symbols are real parameters: third-party code (pytket) may hand back
+    same-named symbols without the assumption"""
+    import sympy
+    rep = {s: sympy.Symbol(s.name, real=True) for s in e.free_symbols
+           if not s.is_real}
+    return e.xreplace(rep) if rep else e
 
 
 def _sympy(e):
@@ -548,8 +557,7 @@ def _mval(m, t):
 def _to_complex(E, x):
     import sympy
     if isinstance(x, sympy.Basic):
-        c = E.extra['sym']
-        subs = {s: E.d.get(n, 0.0) for n, s in c.syms.items()}
+        subs = {s: E.d.get(s.name, 0.0) for s in x.free_symbols}
         return complex(sympy.N(x.subs(subs)))
     return complex(x)
 
